@@ -6,6 +6,7 @@ package main
 
 import (
 	"fmt"
+	"os"
 	"sort"
 	"strings"
 )
@@ -194,6 +195,9 @@ func modusPonens(pc []string) []string {
 		changed := false
 		for i, t := range parsed {
 			for t != nil && t.head() == "=>" && len(t.list) == 3 && containsQuant(t.list[1]) && holds(t.list[1]) {
+				if envInt("GOVC_MP_DEBUG", 0) == 1 {
+					fmt.Fprintf(os.Stderr, "MP: antecedent %.300s\n   consequent %.300s\n", t.list[1].String(), t.list[2].String())
+				}
 				t = t.list[2]
 				parsed[i] = t
 				out[i] = t.String()
